@@ -158,4 +158,28 @@ theorem metadata_prepared_eq_built (H : String → String) (p : WheelPlan) (f : 
     (⟨p.distInfo ++ "/" ++ posix f.rel, addFileAttr f.stMode, f.digest, f.size⟩ : Member) ∈ (buildWheel H p).members :=
   distInfo_member H p f hf
 
+/-- **The builder's own call sequence writes each archive name once** — under `ConfigDistinct`, a decidable condition
+on the configuration (no two sources map to one archive name): the selected files have pairwise distinct targets
+outside `<dist>.data/` and `<dist>.dist-info/`, file scripts have distinct base names (enforced by the code since repo
+fix accd3ea), the prepared dist-info files are distinct and none is `RECORD`, and the two directory names are not
+nested.  Then the operation sequence of `build` (module files or .pth, file scripts, dist-info) satisfies
+`DistinctTargets`, hence (`record_each_once`) every member and every RECORD row occurs once.  The condition is no
+property of the code: `packages = [{include="pkg", from="a"}, {include="pkg", from="b"}]` or an include of
+`<dist>.dist-info/METADATA` violate it and the real builder then writes the member twice (replayed, see report). -/
+theorem builder_distinct_targets (p : WheelPlan) (h : ConfigDistinct p) : DistinctTargets p.distInfo (wheelOps p) :=
+  Poetry.Build.builder_distinct_targets p h
+
+theorem builder_each_once (H : String → String) (p : WheelPlan) (h : ConfigDistinct p) :
+    ((buildWheel H p).members.map (·.path)).Nodup :=
+  (record_each_once H p.distInfo (wheelOps p) (Poetry.Build.builder_distinct_targets p h)).1
+
+example : ConfigDistinct (⟨false, ["r"], [⟨["pkg", "a.py"], "pkg/a.py", 33188, "H", 1⟩], "pkg", "", 0,
+    [⟨"run.sh", 33261, "S", 2⟩], ["d"], [⟨["METADATA"], 33188, "M", 3⟩, ⟨["WHEEL"], 33188, "W", 4⟩],
+    "pkg-1.0.dist-info", "pkg-1.0.data"⟩ : WheelPlan) := by decide
+
+/-- two sources mapped to one archive name violate the condition -/
+example : ¬ ConfigDistinct (⟨false, ["r"],
+    [⟨["a", "pkg", "__init__.py"], "pkg/__init__.py", 33188, "H", 1⟩, ⟨["b", "pkg", "__init__.py"], "pkg/__init__.py", 33188, "G", 1⟩],
+    "pkg", "", 0, [], ["d"], [⟨["METADATA"], 33188, "M", 3⟩], "x-1.0.dist-info", "x-1.0.data"⟩ : WheelPlan) := by decide
+
 end Poetry.C01
